@@ -23,21 +23,42 @@
 (***************************************************************************)
 EXTENDS IL
 
+(* ------------------------------- sorts --------------------------------- *)
+(* SortW(e): the width of e when e obeys the width rules of the IL, 0 otherwise.  One pass  *)
+(* over the tree (IL!WellFormedExpr re-computes IL!Bits at every level); MC_ILWF checks     *)
+(* SortW(e) = IF WellFormedExpr(e) THEN Bits(e) ELSE 0 on a small universe of expressions.   *)
+RECURSIVE SortW(_)
+SortW(e) ==
+  CASE e.k = "scalar" -> IF e.w >= 1 THEN e.w ELSE 0
+    [] e.k = "const"  -> IF e.w >= 1 /\ IsBV(e.w, e.v) THEN e.w ELSE 0
+    [] e.k \in ArithOps ->
+         LET a == TLCEval(SortW(e.a)) IN
+         IF a = 0 THEN 0 ELSE IF SortW(e.b) = a THEN a ELSE 0
+    [] e.k \in CmpOps ->
+         LET a == TLCEval(SortW(e.a)) IN
+         IF a = 0 THEN 0 ELSE IF SortW(e.b) = a THEN 1 ELSE 0
+    [] e.k \in {"zext", "sext"} ->
+         LET a == TLCEval(SortW(e.a)) IN IF a # 0 /\ a < e.w THEN e.w ELSE 0
+    [] e.k = "trun" ->
+         LET a == TLCEval(SortW(e.a)) IN IF a # 0 /\ e.w >= 1 /\ e.w < a THEN e.w ELSE 0
+    [] e.k = "ite" ->
+         LET a == TLCEval(SortW(e.a)) IN
+         IF a = 0 THEN 0 ELSE IF SortW(e.c) = 1 /\ SortW(e.b) = a THEN a ELSE 0
+    [] OTHER -> 0
+WellSorted(e) == SortW(e) # 0
+
 (* ----------------------------- operations ------------------------------ *)
 AddrWidth(w) == w >= 1 /\ w <= 64
 ByteWidth(w) == w >= 8 /\ w % 8 = 0
 
 OptExprs(x) == IF x.k = "none" THEN <<>> ELSE x.l
-AllWF(s)    == \A i \in 1..Len(s) : WellFormedExpr(s[i])
+AllWF(s)    == \A i \in 1..Len(s) : WellSorted(s[i])
 
 WellFormedOp(op) ==
-  CASE op.k = "assign" -> /\ op.dst.w >= 1 /\ WellFormedExpr(op.src)
-                          /\ Bits(op.src) = op.dst.w
-    [] op.k = "store"  -> /\ WellFormedExpr(op.idx) /\ WellFormedExpr(op.src)
-                          /\ AddrWidth(Bits(op.idx)) /\ ByteWidth(Bits(op.src))
-    [] op.k = "load"   -> /\ WellFormedExpr(op.idx) /\ AddrWidth(Bits(op.idx))
-                          /\ ByteWidth(op.dst.w)
-    [] op.k = "branch" -> WellFormedExpr(op.target) /\ AddrWidth(Bits(op.target))
+  CASE op.k = "assign" -> op.dst.w >= 1 /\ SortW(op.src) = op.dst.w
+    [] op.k = "store"  -> AddrWidth(SortW(op.idx)) /\ ByteWidth(SortW(op.src))
+    [] op.k = "load"   -> AddrWidth(SortW(op.idx)) /\ ByteWidth(op.dst.w)
+    [] op.k = "branch" -> AddrWidth(SortW(op.target))
     [] op.k = "intrinsic" -> /\ AllWF(op.args) /\ AllWF(OptExprs(op.written))
                              /\ AllWF(OptExprs(op.read))
     [] op.k = "nop"    -> TRUE
@@ -46,33 +67,34 @@ WellFormedOp(op) ==
 \* which clause of WellFormedOp fails (diagnosis only)
 OpWhy(op) ==
   CASE op.k = "assign" ->
-         IF ~WellFormedExpr(op.src) THEN [clause |-> "expr-sort"]
-         ELSE [clause |-> "assign-width", dst |-> op.dst.n, dstw |-> op.dst.w, srcw |-> Bits(op.src)]
+         IF ~WellSorted(op.src) THEN [clause |-> "expr-sort"]
+         ELSE [clause |-> "assign-width", dst |-> op.dst.n, dstw |-> op.dst.w, srcw |-> SortW(op.src)]
     [] op.k = "store"  ->
-         IF ~(WellFormedExpr(op.idx) /\ WellFormedExpr(op.src)) THEN [clause |-> "expr-sort"]
-         ELSE IF ~AddrWidth(Bits(op.idx)) THEN [clause |-> "addr-width", w |-> Bits(op.idx)]
-         ELSE [clause |-> "store-width", w |-> Bits(op.src)]
+         IF ~(WellSorted(op.idx) /\ WellSorted(op.src)) THEN [clause |-> "expr-sort"]
+         ELSE IF ~AddrWidth(SortW(op.idx)) THEN [clause |-> "addr-width", w |-> SortW(op.idx)]
+         ELSE [clause |-> "store-width", w |-> SortW(op.src)]
     [] op.k = "load"   ->
-         IF ~WellFormedExpr(op.idx) THEN [clause |-> "expr-sort"]
-         ELSE IF ~AddrWidth(Bits(op.idx)) THEN [clause |-> "addr-width", w |-> Bits(op.idx)]
+         IF ~WellSorted(op.idx) THEN [clause |-> "expr-sort"]
+         ELSE IF ~AddrWidth(SortW(op.idx)) THEN [clause |-> "addr-width", w |-> SortW(op.idx)]
          ELSE [clause |-> "load-width", dst |-> op.dst.n, w |-> op.dst.w]
     [] op.k = "branch" ->
-         IF ~WellFormedExpr(op.target) THEN [clause |-> "expr-sort"]
-         ELSE [clause |-> "branch-width", w |-> Bits(op.target)]
+         IF ~WellSorted(op.target) THEN [clause |-> "expr-sort"]
+         ELSE [clause |-> "branch-width", w |-> SortW(op.target)]
     [] op.k = "intrinsic" -> [clause |-> "expr-sort"]
     [] OTHER -> [clause |-> "unknown-operation"]
 
 (* ------------------------------- guards -------------------------------- *)
 IsNone(c)  == c.k = "none"
 \* a guard has to be a well-sorted 1-bit expression
-WellFormedGuard(c) == IsNone(c) \/ (WellFormedExpr(c) /\ Bits(c) = 1)
+WellFormedGuard(c) == IsNone(c) \/ SortW(c) = 1
 
 True1 == <<1>>
 Enabled(c, env) ==
   IsNone(c) \/ LET r == Eval(c, env) IN IsOk(r) /\ r.ok.w = 1 /\ r.ok.v = True1
 
 NumEnabled(gs, env) == Cardinality({ i \in 1..Len(gs) : Enabled(gs[i], env) })
-ExactlyOne(gs, env) == NumEnabled(gs, env) = 1
+\* lo = 1: exactly one guard enabled;  lo = 0: at most one
+OneOf(gs, env, lo) == NumEnabled(gs, env) \in lo..1
 
 \* <<name, width>> of the scalars of a sequence of guards, as a sequence without repetition
 GuardScalarSet(gs) ==
@@ -130,35 +152,37 @@ ComplementPair(gs) ==
 
 ExhaustiveLimit == 12
 
-(* Exactly one guard of gs is enabled under every valuation considered:                      *)
-(* all valuations when the guards mention at most 12 bits; otherwise the complement rule, or *)
-(* (bounded) the boundary product set and the valuations rv recorded with the observation.   *)
-GuardsDeterministic(gs, rv) ==
+(* Exactly one guard of gs (lo = 1; at most one for lo = 0) is enabled under every valuation *)
+(* considered: all valuations when the guards mention at most 12 bits; otherwise the         *)
+(* complement rule, or (bounded) the boundary product set and the valuations rv recorded     *)
+(* with the observation.                                                                     *)
+GuardsOneOf(gs, rv, lo) ==
   LET sc == TLCEval(SeqOfSet(GuardScalarSet(gs)))
       bits == SumW(sc)
   IN IF bits <= ExhaustiveLimit
      THEN \A n \in 0..(2^bits - 1) :
-            LET env == TLCEval(EnvOf(sc, NthVals(sc, n))) IN ExactlyOne(gs, env)
+            LET env == TLCEval(EnvOf(sc, NthVals(sc, n))) IN OneOf(gs, env, lo)
      ELSE \/ ComplementPair(gs)
           \/ /\ \A vals \in BoundaryVals(sc, Len(sc)) :
-                  LET env == TLCEval(EnvOf(sc, vals)) IN ExactlyOne(gs, env)
+                  LET env == TLCEval(EnvOf(sc, vals)) IN OneOf(gs, env, lo)
              /\ \A r \in 1..Len(rv) :
                   RowCovers(rv[r], sc) =>
-                    LET env == TLCEval(RowEnv(rv[r])) IN ExactlyOne(gs, env)
+                    LET env == TLCEval(RowEnv(rv[r])) IN OneOf(gs, env, lo)
+GuardsDeterministic(gs, rv) == GuardsOneOf(gs, rv, 1)
 
-\* a witness valuation for the diagnosis: <<number enabled, valuation>> or "none found"
-GuardsWitness(gs, rv) ==
+\* a witness valuation for the diagnosis
+GuardsWitness(gs, rv, lo) ==
   LET sc == SeqOfSet(GuardScalarSet(gs))
       bits == SumW(sc)
       show(env) == [enabled |-> NumEnabled(gs, env),
                     at |-> [i \in 1..Len(sc) |-> [n |-> sc[i][1], val |-> env[sc[i][1]]]]]
   IN IF bits <= ExhaustiveLimit
-     THEN LET n == CHOOSE n \in 0..(2^bits - 1) : ~ExactlyOne(gs, EnvOf(sc, NthVals(sc, n)))
+     THEN LET n == CHOOSE n \in 0..(2^bits - 1) : ~OneOf(gs, EnvOf(sc, NthVals(sc, n)), lo)
           IN show(EnvOf(sc, NthVals(sc, n)))
-     ELSE IF \E vals \in BoundaryVals(sc, Len(sc)) : ~ExactlyOne(gs, EnvOf(sc, vals))
-     THEN LET vals == CHOOSE vals \in BoundaryVals(sc, Len(sc)) : ~ExactlyOne(gs, EnvOf(sc, vals))
+     ELSE IF \E vals \in BoundaryVals(sc, Len(sc)) : ~OneOf(gs, EnvOf(sc, vals), lo)
+     THEN LET vals == CHOOSE vals \in BoundaryVals(sc, Len(sc)) : ~OneOf(gs, EnvOf(sc, vals), lo)
           IN show(EnvOf(sc, vals))
-     ELSE LET r == CHOOSE r \in 1..Len(rv) : RowCovers(rv[r], sc) /\ ~ExactlyOne(gs, RowEnv(rv[r]))
+     ELSE LET r == CHOOSE r \in 1..Len(rv) : RowCovers(rv[r], sc) /\ ~OneOf(gs, RowEnv(rv[r]), lo)
           IN show(RowEnv(rv[r]))
 
 (* ------------------------------- graphs -------------------------------- *)
@@ -181,16 +205,16 @@ GuardsWF(g)    == \A i \in 1..Len(g.edges) : WellFormedGuard(g.edges[i].c)
 EntryExit(g)   == g.entry \in BlockIds(g) /\ g.exit \in BlockIds(g)
 ExitReachable(g) == g.exit \in Reach(g)
 
-(* Out-edges of one block.  A block without out-edges has to be the exit (control leaves    *)
-(* the instruction there); the exit itself may have out-edges (a loop whose head is also    *)
-(* where the instruction is left - the edge to the next instruction is added when graphs    *)
-(* are joined): then at most one of them may be enabled.                                    *)
+(* Out-edges of one block that can be reached from the entry ("in every state": no state is *)
+(* ever at an unreachable block, so a stray unreachable block is not judged here).          *)
+(* A block without out-edges has to be the exit (control leaves                             *)
+(* the instruction there).  The exit itself may have out-edges (the statement does not      *)
+(* exclude a loop whose head is also where the instruction is left; the edge to the next    *)
+(* instruction is only added when graphs are joined): then at most one may be enabled.      *)
+BlockLo(g, b) == IF b = g.exit THEN 0 ELSE 1
 BlockDeterministic(g, b, rv) ==
   LET gs == OutGuards(g, b) IN
-  IF Len(gs) = 0 THEN b = g.exit
-  ELSE IF b = g.exit THEN GuardsDeterministic(gs \o <<[k |-> "none"]>>, rv) = FALSE
-                          => ExitGuardsAtMostOne(gs, rv)
-  ELSE GuardsDeterministic(gs, rv)
+  IF Len(gs) = 0 THEN b = g.exit ELSE GuardsOneOf(gs, rv, BlockLo(g, b))
 
 WellFormedCfg(g, rv) ==
   /\ BlocksDistinct(g)
@@ -199,7 +223,7 @@ WellFormedCfg(g, rv) ==
   /\ GuardsWF(g)
   /\ EntryExit(g)
   /\ ExitReachable(g)
-  /\ \A b \in BlockIds(g) : BlockDeterministic(g, b, rv)
+  /\ \A b \in Reach(g) : BlockDeterministic(g, b, rv)
 
 (* -------------------------------- lift --------------------------------- *)
 SuccGuards(res) == [i \in 1..Len(res.succ) |-> res.succ[i].c]
